@@ -247,6 +247,18 @@ Theorem c08_gen_module_read_filter : forall p base size, u64 base -> u64 size ->
 Proof. exact g_module_read_drop_eq. Qed.
 Print Assumptions c08_gen_module_read_filter.
 
+(* the range-map crate at the version of Cargo.lock, as generated from its source (Range::new's assertion,
+   contains, intersects, range-vs-point ordering, one iteration of normalize) is what the model uses; try_from_iter's
+   and get's structure are pinned literally by the translator *)
+Theorem c08_gen_range_map :
+  (forall s e, g_range_new s e = if s >? e then Panic PANIC_G_RANGE_NEW else Ret (s, e)) /\
+  (forall r x, g_contains r x = contains r x) /\
+  (forall a b, g_intersects a b = intersects a b) /\
+  (forall r x, g_range_cmp_pt r x = range_cmp_pt r x) /\
+  (forall (V : Type) (eqb : V -> V -> bool) st rv, g_norm_step eqb st rv = norm_step eqb st rv).
+Proof. exact g_range_map_eq. Qed.
+Print Assumptions c08_gen_range_map.
+
 (* hence: the generated STACK WIN pipeline never fails, for every list of records, in either profile *)
 Theorem c08_gen_win_total : forall p (l : list winrec), wf_recs l -> exists t, g_win_table p l = Ret t.
 Proof. exact g_win_table_total. Qed.
